@@ -16,6 +16,30 @@ def is_path(v):
     return isinstance(v, Adt) and v.path == "Path"
 
 
+def from_text(s):
+    """The abstract path std::path reads from a Unix path text: a leading `/` is the root, empty components and `.`
+    components other than a leading one are not components."""
+    if s.startswith("/"):
+        return P("/", tuple(x for x in s.split("/") if x and x != "."))
+    parts = s.split("/")
+    ld = ""
+    if parts and parts[0] == ".":
+        ld = "."
+        parts = parts[1:]
+    return P(ld, tuple(x for x in parts if x and x != "."))
+
+
+def coerce(v):
+    """A concrete string used as a path (String -> PathBuf, AsRef<Path> for str) becomes the abstract path it denotes."""
+    from ..teval import StrB
+    w = strip(v)
+    if isinstance(w, StrB) and w.is_concrete():
+        w = w.concrete()
+    if isinstance(w, str):
+        return from_text(w)
+    return v
+
+
 def lead(v):
     return strip(v).fields["lead"]
 
@@ -90,10 +114,10 @@ def same(a, b):
 
 def stubs():
     def need(I, v, what):
-        if not is_path(v):
+        if not is_path(coerce(v)):
             return I.top("%s of a value that is not an abstract path: %r" % (what, strip(v)))
         return None
-    return {
+    table = {
         "std::path::Path::ancestors": lambda I, a, fn, e: need(I, a[0], "ancestors") or models.iter_of(I, RList(ancestors(a[0])), by_ref=False),
         "std::path::Path::new": lambda I, a, fn, e: P("", ()) if strip(a[0]) == "" else (strip(a[0]) if is_path(a[0]) else I.top("Path::new(%r)" % (strip(a[0]),))),
         "std::path::Path::strip_prefix": lambda I, a, fn, e: need(I, a[0], "strip_prefix") or need(I, a[1], "strip_prefix") or (
@@ -106,3 +130,7 @@ def stubs():
         "std::path::Path::to_path_buf": lambda I, a, fn, e: strip(a[0]),
         "std::path::PathBuf::as_path": lambda I, a, fn, e: strip(a[0]),
     }
+
+    def wrap(f):
+        return lambda I, a, fn, e: f(I, [coerce(x) for x in a], fn, e)
+    return {k: wrap(f) for k, f in table.items()}
